@@ -830,6 +830,19 @@ def _compile(ctx, model):
     ctx.ob("P/compile/constants-by-repr", ok, cmap.loc(),
            "constants are emitted with repr()" if ok else
            "CompileMapper.map_constant does not emit repr(constant)")
+    # ... and repr() of a numpy scalar is not a Python literal (numpy 2 writes
+    # np.int64(3), np.True_): every numpy class that counts as a constant must
+    # have been turned into the Python scalar first
+    from .c17 import numpy_constants_not_normalised
+    registered, missing = numpy_constants_not_normalised(model, mc)
+    if registered:
+        ctx.ob("T/compile/map_constant/numpy-normalised", not missing, cmap.loc(),
+               f"numpy constants {sorted(registered)} are converted to Python "
+               "scalars before repr()" if not missing else
+               "CompileMapper.map_constant converts numpy scalars to Python "
+               f"scalars, but not numpy.{', numpy.'.join(missing)}: repr() of "
+               "those is 'np.int64(3)' / 'np.True_' under numpy 2, so "
+               "compile(x + numpy.int64(3)) builds source that raises NameError")
     # pickling
     gs = ce.members.get("__getstate__")
     ss = ce.members.get("__setstate__")
@@ -886,7 +899,8 @@ def assoc_flatten(t):
 def _source_vs_python(ctx, model):
     from .c06 import mk, posname
     table = extract_printer_table(model, f"{COMP}:CompileMapper",
-                                  node_names=set(PY_KINDS) | {"Variable"})
+                                  node_names=set(PY_KINDS) | {"Variable",
+                                                              "Rational"})
     missing = [k for k in PY_KINDS if k not in table.templates]
     if missing:
         raise AnalysisError(f"CompileMapper: no template for {missing} "
@@ -929,6 +943,34 @@ def _source_vs_python(ctx, model):
                        f"{show(t)} compiles to the source '{s}', which Python "
                        f"groups as {show(back)}", {"source": s})
     ctx.floor("python-source nestings", n, 400)
+    # the exact-quotient node (pymbolic.rational.Rational) is written like a
+    # quotient; as an operand it needs whatever parentheses a quotient needs
+    if "Rational" in table.templates:
+        half = ("Rational", ("Const", 1), ("Const", 2))
+        halfq = ("Quotient", ("Const", 1), ("Const", 2))
+        for P in ("Product", "Quotient", "FloorDiv", "Remainder", "Power", "Sum"):
+            for pos in range(PY_KINDS[P]):
+                kids = [V[0], V[1]][:PY_KINDS[P]]
+                kids[pos] = half
+                t = mk(P, kids)
+                kids2 = list(kids)
+                kids2[pos] = halfq
+                want = mk(P, kids2)
+                key = f"T/py-source/{P}.{posname(P, pos)}<-Rational"
+                try:
+                    s_ = printer.print(t, 0)
+                    back = py_tree(s_)
+                except (Unsupported, NotShared) as e:
+                    raise AnalysisError(f"CompileMapper model on a Rational: {e}")
+                ok = assoc_flatten(back) == assoc_flatten(_negconst(want))
+                ctx.ob(key, ok, loc,
+                       f"'{s_}' means the same tree to Python" if ok else
+                       f"{show(t)} compiles to the source '{s_}', which Python "
+                       f"groups as {show(back)}: a / Rational(1, 2) computes "
+                       "(a / 1) / 2", {"source": s_})
+    else:
+        raise AnalysisError("CompileMapper: no template for Rational "
+                            f"({table.notes})")
 
 
 def _negconst(t):
